@@ -356,7 +356,10 @@ Definition refine_step (d : dfa) (p : partition) : step_res partition partition 
               (pgroups p) pnew in
   if pequal pn p then Done p else More pn.
 
-Definition minimize_fuel (d : dfa) : positive := (pos_of_len (dstates d) + 2)%positive.
+(* every round that does not stop separates at least one pair of states (or drops an empty
+   initial group), so 2|Q|^2+1 rounds are enough; the Go loop is unbounded *)
+Definition minimize_fuel (d : dfa) : positive :=
+  (2 * pos_of_len (dstates d) * pos_of_len (dstates d) + 3)%positive.
 
 Definition minimize_finish (d : dfa) (p : partition) : dfa :=
   let start := prep p (dstart d) in
